@@ -80,46 +80,69 @@ func c01DecisionTable(c *Ctx, rule string) {
 	fAnswer := fieldByName(c, dnsPkg, "Msg", "Answer")
 	fAA := fieldByName(c, dnsPkg, "MsgHdr", "Authoritative")
 	fRcode := fieldByName(c, dnsPkg, "MsgHdr", "Rcode")
-	extractOf := func(call *ssa.Call, idx int) func(ssa.Value) bool {
-		return func(v ssa.Value) bool {
+	// an atom matcher reports (matched, negated): `x != 43` is the atom isDS negated
+	extractOf := func(call *ssa.Call, idx int) func(ssa.Value) (bool, bool) {
+		return func(v ssa.Value) (bool, bool) {
 			ex, ok := v.(*ssa.Extract)
-			return ok && ex.Tuple == ssa.Value(call) && ex.Index == idx
+			return ok && ex.Tuple == ssa.Value(call) && ex.Index == idx, false
 		}
 	}
 	atoms := []struct {
 		name  string
-		match func(v ssa.Value) bool
+		match func(v ssa.Value) (bool, bool)
 	}{
 		{"ns", extractOf(isAuthCalls[0], 0)},
 		{"auth0", extractOf(isAuthCalls[0], 1)},
 		{"auth1", extractOf(isAuthCalls[1], 1)},
-		{"isDS", func(v ssa.Value) bool {
+		{"isDS", func(v ssa.Value) (bool, bool) {
 			b, ok := v.(*ssa.BinOp)
-			if !ok || b.Op != token.EQL {
-				return false
+			if !ok || (b.Op != token.EQL && b.Op != token.NEQ) {
+				return false, false
 			}
-			k, isK := constInt(b.Y)
+			x, y := b.X, b.Y
+			if _, isK := constInt(x); isK {
+				x, y = y, x
+			}
+			k, isK := constInt(y)
 			if !isK || k != 43 {
-				return false
+				return false, false
 			}
-			call, isCall := b.X.(*ssa.Call)
-			return isCall && calleeOf(call.Common()) != nil && calleeOf(call.Common()).Name() == "QType"
+			call, isCall := x.(*ssa.Call)
+			return isCall && calleeOf(call.Common()) != nil && calleeOf(call.Common()).Name() == "QType", b.Op == token.NEQ
 		}},
-		{"notRoot", func(v ssa.Value) bool {
+		{"notRoot", func(v ssa.Value) (bool, bool) {
 			x, op, ok := cmpZero(v)
-			return ok && op == token.NEQ && firstByteOf(x) != nil
+			if !ok || firstByteOf(x) == nil {
+				return false, false
+			}
+			switch op {
+			case token.NEQ, token.GTR:
+				return true, false
+			case token.EQL:
+				return true, true
+			}
+			return false, false
 		}},
-		{"empty", func(v ssa.Value) bool {
+		{"empty", func(v ssa.Value) (bool, bool) {
 			b, ok := v.(*ssa.BinOp)
-			if !ok || b.Op != token.EQL {
-				return false
+			if !ok {
+				return false, false
 			}
 			k, isK := constInt(b.Y)
 			ln := isBuiltinCall(b.X, "len")
-			return isK && k == 0 && ln != nil && isFieldLoad(ln.Call.Args[0], fAnswer)
+			if !(isK && k == 0 && ln != nil && isFieldLoad(ln.Call.Args[0], fAnswer)) {
+				return false, false
+			}
+			switch b.Op {
+			case token.EQL:
+				return true, false
+			case token.NEQ, token.GTR:
+				return true, true
+			}
+			return false, false
 		}},
 		{"found", extractOf(findAnswer, 1)},
-		{"hasNS", func(v ssa.Value) bool { return v == ssa.Value(hasRecord) }},
+		{"hasNS", func(v ssa.Value) (bool, bool) { return v == ssa.Value(hasRecord), false }},
 	}
 	// constructs
 	type construct struct {
@@ -166,13 +189,13 @@ func c01DecisionTable(c *Ctx, rule string) {
 		{"final-write", func(in ssa.Instruction) bool { return in == finalWrite.(ssa.Instruction) }, func(a map[string]bool) bool { return !refused(a) }},
 	}
 	// interpreter
-	atomOf := func(v ssa.Value) int {
+	atomOf := func(v ssa.Value) (int, bool) {
 		for i, a := range atoms {
-			if a.match(v) {
-				return i
+			if m, neg := a.match(v); m {
+				return i, neg
 			}
 		}
-		return -1
+		return -1, false
 	}
 	type tri int // 0 unknown, 1 true, 2 false
 	var eval func(v ssa.Value, asg []bool, env map[*ssa.Phi]tri) tri
@@ -185,8 +208,8 @@ func c01DecisionTable(c *Ctx, rule string) {
 				return 2
 			}
 		}
-		if i := atomOf(v); i >= 0 {
-			if asg[i] {
+		if i, neg := atomOf(v); i >= 0 {
+			if asg[i] != neg {
 				return 1
 			}
 			return 2
